@@ -480,6 +480,7 @@ Propagate ==
 B(opr) == [e |-> "b", a |-> A, t |-> now] @@ opr     \* op_begin event carrying the op record
 Spend(ac) == [ac EXCEPT ![A].ops = @ - 1]
 Busy(ac, opname) == [ac EXCEPT ![A].cur = [op |-> opname]]
+BusyEnter(ac, l) == [ac EXCEPT ![A].cur = [op |-> "enter", l |-> l]]
 BusyLeave(ac, blk, id) == [ac EXCEPT ![A].cur = [op |-> "leave", blk |-> blk, id |-> id]]
 BlkOf(fr) == IF fr.k = "held" THEN "lock" ELSE "scope"
 IdOf(fr) == IF fr.k = "held" THEN fr.l ELSE fr.s
@@ -555,9 +556,9 @@ UserOp ==
                    /\ ev' = E(B([op |-> "enter", l |-> l]))
                    /\ IF lock[l].owner = 0 \/ lock[l].owner = A
                       THEN /\ lock' = [lock EXCEPT ![l].owner = A, ![l].depth = @ + 1]
-                           /\ act' = Push(Busy(ac, "enter"), A, [k |-> "held", l |-> l])
+                           /\ act' = Push(BusyEnter(ac, l), A, [k |-> "held", l |-> l])
                            /\ UNCHANGED <<run, subs>>
-                      ELSE /\ DoSubscribe(Push(Busy(ac, "enter"), A, [k |-> "lenter", l |-> l]), subs, NLock(l))
+                      ELSE /\ DoSubscribe(Push(BusyEnter(ac, l), A, [k |-> "lenter", l |-> l]), subs, NLock(l))
                            /\ lock' = lock
               /\ UNCHANGED <<pending, future, task, sc, flag, cnt, fault>>
            \/ /\ In("avail")
